@@ -332,6 +332,70 @@ theorem modified_rejected_false :
   rw [h] at h'
   cases h'
 
+/-! ### the size bound (`MaxEncryptedMessageSize`) -/
+
+/-- With the size guards in place nothing changes up to the bound: a message of at most
+`maxMessage` bytes (16 MiB — the bound itself included) that the sender encrypts is returned by
+the receiver, and the guarded functions never panic. -/
+theorem limit_round_trip (P : Prims) (hl : LenLaws P) (hc : CryptoLaws P) (seed tPub ctx msg ct : Bytes)
+    (hs : seed.length = 32) (hpub : P (.edPub seed) = some tPub) (hm : msg.length ≤ maxMessage)
+    (he : encryptL P tPub ctx msg = .ok ct) :
+    encrypt P tPub ctx msg = .ok ct ∧ decryptL P (seed ++ tPub) ctx ct = .ok msg := by
+  unfold encryptL at he
+  by_cases h32 : tPub.length ≠ 32
+  · simp [h32] at he
+  · have hgt : ¬ msg.length > maxMessage := by omega
+    simp only [h32, hgt, ↓reduceIte] at he
+    refine ⟨he, ?_⟩
+    unfold decryptL
+    rw [decrypt_encrypt P hl hc seed tPub ctx msg ct hs hpub he]
+    simp [hgt]
+
+/-- One byte more is refused on both sides: the sender refuses every message longer than the
+bound (before evaluating any primitive), and the receiver never returns one — whatever the
+ciphertext, key and context. Neither side panics. -/
+theorem over_limit_refused (P : Prims) (hl : LenLaws P) :
+    (∀ tPub ctx msg, msg.length > maxMessage → encryptL P tPub ctx msg = .err) ∧
+    (∀ tPriv ctx ct m, decryptL P tPriv ctx ct = .ok m → m.length ≤ maxMessage ∧ decrypt P tPriv ctx ct = .ok m) ∧
+    (∀ tPub ctx msg, encryptL P tPub ctx msg ≠ .panic) ∧ (∀ tPriv ctx ct, decryptL P tPriv ctx ct ≠ .panic) := by
+  refine ⟨?_, ?_, ?_, ?_⟩
+  · intro tPub ctx msg h
+    unfold encryptL
+    by_cases h32 : tPub.length ≠ 32 <;> simp [h32, h]
+  · intro tPriv ctx ct m h
+    unfold decryptL at h
+    cases hd : decrypt P tPriv ctx ct with
+    | panic => simp [hd] at h
+    | err => simp [hd] at h
+    | ok m' =>
+      simp only [hd] at h
+      by_cases hgt : m'.length > maxMessage
+      · simp [hgt] at h
+      · simp only [hgt, ↓reduceIte, Outcome.ok.injEq] at h
+        subst h
+        exact ⟨by omega, rfl⟩
+  · intro tPub ctx msg
+    unfold encryptL
+    by_cases h32 : tPub.length ≠ 32
+    · simp [h32]
+    · by_cases hgt : msg.length > maxMessage
+      · simp [h32, hgt]
+      · simp only [h32, hgt, ↓reduceIte]
+        exact encrypt_no_panic P hl tPub ctx msg
+  · intro tPriv ctx ct
+    unfold decryptL
+    have := decrypt_no_panic P hl tPriv ctx ct
+    cases hd : decrypt P tPriv ctx ct with
+    | panic => exact absurd hd this
+    | err => simp
+    | ok m => by_cases hgt : m.length > maxMessage <;> simp [hgt]
+
+/-- Non-vacuity of the bound theorems: in the toy instance a short message passes both guards. -/
+example : ∃ ct, encryptL toyPrims (9 :: pad 31 [1, 2, 3]) [99] [] = .ok ct := by
+  obtain ⟨ct, h⟩ := encrypt_succeeds toyPrims toy_len toy_crypto (9 :: pad 31 [1, 2, 3]) [99] [] _
+    (by simp [pad_length]) (toy_toX [1, 2, 3]) (by intro s; rfl)
+  exact ⟨ct, by simp [encryptL, pad_length, maxMessage, h]⟩
+
 /-- Short inputs (fewer than the 4+32 header bytes) are errors, not panics — in particular the
 lengths 34 and 35 that used to reach the slice `ciphertext[36:]`. -/
 theorem short_ciphertext_rejected (P : Prims) (tPriv ctx ct : Bytes) (h : ct.length < 36) :
